@@ -497,6 +497,15 @@ impl ContinuityStore {
         while tail_bytes <= MAX_TAIL_BYTES {
             #[cfg(rip_verif)]
             rip_kernel::verif::point("scan.iter", "compile_input.tail");
+            // Read the head before the tail. Frames appended while this runs then either show up
+            // in the tail (a new message fixes the cut before it) or lie beyond the head that is
+            // used as the cut: the compiled input is always a function of truth up to its cut.
+            // (Reading the head after the tail let the cut move past frames the tail had not seen.)
+            let head_before_tail = self
+                .stream_cache
+                .try_read_last_seq(continuity_id)
+                .ok()
+                .flatten();
             #[cfg(rip_verif)]
             rip_kernel::verif::point("compile.before_tail", continuity_id);
             match self.stream_cache.scan_tail_messages_runs_v1(
@@ -510,11 +519,7 @@ impl ContinuityStore {
                         rip_kernel::verif::point("compile.after_tail", continuity_id);
                         // Prefer the full continuity sidecar's head seq so `from_seq` matches the
                         // truth stream even when the mr sidecar omits non-message events.
-                        let head_seq = self
-                            .stream_cache
-                            .try_read_last_seq(continuity_id)
-                            .ok()
-                            .flatten()
+                        let head_seq = head_before_tail
                             .or_else(|| tail.events.last().map(|event| event.seq))
                             .unwrap_or_default();
 
